@@ -1,6 +1,6 @@
 """C04 / C05: recorded operator histories validated against spec/TraceSolutionCtx.tla (T binding, macro traces)
 plus the exhaustive check of the fine-grained model spec/SolutionCtx.tla (MC_SolutionCtx.cfg)."""
-import collections, json, os, random, time
+import collections, json, os, random, re, time
 from vlib import common, pgen, project
 from vlib.common import ToolError
 
@@ -116,7 +116,9 @@ def run(pid, tier):
             if e.get('only_parent') and e['ev']['parentBefore'] != e['ev']['parentAfter']:
                 verdict.add('C04/ParentUnchanged/general', 'parent changed by %s' % e['id'], e['ev'])
         for p in panics:
-            key = 'C04/Panic/%s' % op_class(p.get('op', '?'))
+            msg = str(p.get('panic', p.get('observePanic', '')))
+            slug = re.sub(r'[^a-z]+', '-', msg.lower())[:40].strip('-')
+            key = 'C04/Panic/%s/%s' % (op_class(p.get('op', '?')).replace('search:', ''), slug)
             verdict.add(key, 'panic in %s step %s of %s: %s' % (p.get('op'), p.get('step'), p.get('case'), str(p.get('panic', p.get('observePanic')))[:200]),
                         {'event': p, 'case': cases_by_id.get(p.get('case'))})
     if not judged:
@@ -184,9 +186,14 @@ def run(pid, tier):
         return cid in broken_from and raw[rid]['step'] > broken_from[cid]
     tainted = 0
     others = collections.Counter()
+    # a leg with a negative matrix entry makes the time replay of that state meaningless: attributed to Reach only
+    reach_bad = {rid for name, _, rid in res.fails if name == 'Reach'}
+    TIME_FAMILY = {'PlacesAndWindows', 'ScheduleArrivals', 'ScheduleDepartures', 'ShiftEnd', 'TourStat', 'StopDistances', 'LimitDistance', 'LimitDuration'}
     for name, idx, rid in res.fails:
         if name not in mine:
             others[name] += 1
+            continue
+        if rid in reach_bad and name in TIME_FAMILY:
             continue
         if is_tainted(rid) or (name in STATE_FAMILY and parent.get(rid) in bad_state):
             tainted += 1
